@@ -67,40 +67,43 @@ Definition hdr_pack (v : N) (h : hdr) : res bytes :=
       ++ [b8 (N.shiftr (h_blen h) 16); b8 (N.shiftr (h_blen h) 8); b8 (h_blen h)] in
     if N.of_nat (length data) =? hdr_len v ty then Ok data else Panic.
 
-(* Header.UnpackBytes(frame): returns the header and frame[idx:] *)
+(* Header.UnpackBytes(frame): returns the header and frame[idx:].
+   [hdr_unpack_bytes_tail] is everything after byte 0 has been taken apart. *)
+Definition hdr_unpack_bytes_tail (v : N) (h1 : hdr) (frame : bytes) : res (hdr * bytes) :=
+  let ty := h_ty h1 in
+  if is_unknown ty then Err EUnknownPacket
+  else
+    let remain := (N.to_nat (hdr_len v ty) - 1)%nat in
+    if (length frame <? remain + 1)%nat then Err EInvalidFrame
+    else
+      cmd <- go_index 1 frame ;;
+      let idx := 2%nat in
+      ridb <- (if is_req ty || is_resp ty then go_slice idx (idx + 4) frame else Ok []) ;;
+      let idx := if is_req ty || is_resp ty then (idx + 4)%nat else idx in
+      tob <- (if is_req ty then go_slice idx (idx + 2) frame else Ok []) ;;
+      let idx := if is_req ty then (idx + 2)%nat else idx in
+      stb <- (if is_resp ty then go_slice idx (idx + 1) frame else Ok []) ;;
+      let idx := if is_resp ty then (idx + 1)%nat else idx in
+      mlb <- (if v =? 2 then go_slice idx (idx + 2) frame else Ok []) ;;
+      let idx := if v =? 2 then (idx + 2)%nat else idx in
+      f <- go_index idx frame ;;
+      s <- go_index (idx + 1) frame ;;
+      t <- go_index (idx + 2) frame ;;
+      rest <- go_slice_from (idx + 3) frame ;;
+      let blen := N.lor (N.lor (N.shiftl (bN f) 16) (N.shiftl (bN s) 8)) (bN t) in
+      Ok (with_rest h1 (bN cmd)
+            (if is_req ty || is_resp ty then de ridb else h_rid h1)
+            (if is_req ty then de tob else h_timeout h1)
+            (if is_resp ty then de stb else h_status h1)
+            (if v =? 2 then de mlb else h_mlen h1)
+            blen (h_unpacked h1), rest).
+
 Definition hdr_unpack_bytes (v : N) (h : hdr) (frame : bytes) : res (hdr * bytes) :=
   match frame with
   | [] => Err EInvalidFrame
   | fb0 :: _ =>
       let b := bN fb0 in
-      let h1 := with_b0 h (b0_ty b) (b0_verify b) (b0_gzip b) (b0_reserve b) (h_begin h) in
-      let ty := h_ty h1 in
-      if is_unknown ty then Err EUnknownPacket
-      else
-        let remain := (N.to_nat (hdr_len v ty) - 1)%nat in
-        if (length frame <? remain + 1)%nat then Err EInvalidFrame
-        else
-          cmd <- go_index 1 frame ;;
-          let idx := 2%nat in
-          ridb <- (if is_req ty || is_resp ty then go_slice idx (idx + 4) frame else Ok []) ;;
-          let idx := if is_req ty || is_resp ty then (idx + 4)%nat else idx in
-          tob <- (if is_req ty then go_slice idx (idx + 2) frame else Ok []) ;;
-          let idx := if is_req ty then (idx + 2)%nat else idx in
-          stb <- (if is_resp ty then go_slice idx (idx + 1) frame else Ok []) ;;
-          let idx := if is_resp ty then (idx + 1)%nat else idx in
-          mlb <- (if v =? 2 then go_slice idx (idx + 2) frame else Ok []) ;;
-          let idx := if v =? 2 then (idx + 2)%nat else idx in
-          f <- go_index idx frame ;;
-          s <- go_index (idx + 1) frame ;;
-          t <- go_index (idx + 2) frame ;;
-          rest <- go_slice_from (idx + 3) frame ;;
-          let blen := N.lor (N.lor (N.shiftl (bN f) 16) (N.shiftl (bN s) 8)) (bN t) in
-          Ok (with_rest h1 (bN cmd)
-                (if is_req ty || is_resp ty then de ridb else h_rid h1)
-                (if is_req ty then de tob else h_timeout h1)
-                (if is_resp ty then de stb else h_status h1)
-                (if v =? 2 then de mlb else h_mlen h1)
-                blen (h_unpacked h1), rest)
+      hdr_unpack_bytes_tail v (with_b0 h (b0_ty b) (b0_verify b) (b0_gzip b) (b0_reserve b) (h_begin h)) frame
   end.
 
 (* protocol.Metadata / protocol.Packet *)
